@@ -1,7 +1,7 @@
 """C17: print renders every value in one well-defined, terminating, re-readable format."""
-import json, math, re
+import json, math, re, subprocess
 from framework import Check, Case
-from jqlib import simple_run
+from jqlib import simple_run, hx, unhx, JQAWK
 import pyref
 import valgen as V
 
@@ -79,7 +79,10 @@ class C17(Check):
             "cycles of length 1-4 through arrays (element stores), objects and mixtures, entered at every node and through slots: marker "
             "exactly at the recurrence, run terminates; print statements whose first / middle / last argument fails (nothing of the statement "
             "is written) or whose arguments write themselves through printing functions (their output precedes the line), in BEGIN and per "
-            "record. non-trivial = container depth >= 2 or a number with >= 16 significant digits")
+            "record; print / printf executed inside root selectors (block bodies of match cases, printf calls, nested in array literals, "
+            "before a fault or an exit; 1-4 selectors, 1-3 input values, four rule programs) as RUN cases, through EvalExpression and on the "
+            "binary with -r: selector output first, per value, in selector order, then the rules on every selected root. "
+            "non-trivial = container depth >= 2 or a number with >= 16 significant digits")
 
     # ------------------------------------------------------------ numbers
     def gen_num(self, rng, n, cases):
@@ -462,6 +465,163 @@ class C17(Check):
             prog = "function bump() { n = n + 10; return n }\nBEGIN { %s }" % body
             cases.append(Case(cid, simple_run(cid, prog), {"prog": prog, "doc": "", "what": "arguments with side effects on each other (model agreement)"}, False, ["effects"]))
 
+    # ------------------------------------------------------------ print / printf executed inside root selectors
+    def gen_selectors(self, rng, n, cases):
+        """"print writes its arguments ... ended by a newline" wherever the statement runs: inside a root selector (-r E: the block body
+        of a match case, a printf call) and through the EvalExpression API.  Per input value every selector is evaluated in order (what
+        it prints comes first), then the rules run on every selected root; a selector that fails or exits keeps what was printed before"""
+        NUMS = [0.0, 1.0, 2.0, 3.0, 10.0, 2.5, -1.0, 100.0, 0.5]
+        STRS = ["x", "abc", "", "é", "a b", "10", "true", "k,v"]
+
+        def mkdoc():
+            return {"a": [rng.choice(NUMS), rng.choice(NUMS)], "s": rng.choice(STRS), "n": rng.choice(NUMS),
+                    "o": rng.choice([{}, {"k": rng.choice(NUMS)}, {"k": [rng.choice(STRS)], "b": None}, {"zz": True, "k": {"id": rng.choice(NUMS)}}])}
+
+        def sel(kind, d):
+            """(selector text, what its evaluation prints, selected root, how it ends: ok / runtime / exit)"""
+            a, st, num, o = d["a"], d["s"], d["n"], d["o"]
+            pa = pyref.pretty
+            if kind == "quiet":
+                return rng.choice([("$.a", "", a, "ok"), ("$", "", d, "ok"), ("$.o", "", o, "ok"), ("$.s", "", st, "ok"), ("[$.n, $.s]", "", [num, st], "ok")])
+            if kind == "block":
+                body = rng.choice(['{ print "sel", x, y; }', '{ print "sel", x, y }', '{\n print "sel", x, y\n}'])
+                return ("match ($.a) { [x, y] => %s }" % body, "sel %s %s\n" % (pa(a[0]), pa(a[1])), None, "ok")
+            if kind == "two-lines":
+                return ('match ($.a) { [x, y] => { print "first", x\n print y, "second" } }', "first %s\n%s second\n" % (pa(a[0]), pa(a[1])), None, "ok")
+            if kind == "printf":
+                return ('printf("%s|", $.s)', st + "|", None, "ok")
+            if kind == "printf-nl":
+                return ('printf("p %s %s\\n", $.s, "q")', "p %s q\n" % st, None, "ok")
+            if kind == "mixed":
+                return ('match ($.a) { [x, y] => { printf("%s-", "k"); print x; printf("%s\\n", $.s) } }', "k-%s\n%s\n" % (pa(a[0]), st), None, "ok")
+            if kind == "inside-array":
+                k = rng.choice([x for x in NUMS if x >= 0])        # (a negative number is not a pattern)
+                out = "one\n" if a[0] == k else "other %s\n%s\n" % (pa(a[0]), pa(d))
+                return ('[$.a, match ($.a[0]) { %s => { print "one" }, v => { print "other", v; print } }]' % pyref.literal(k), out, [a, None], "ok")
+            if kind == "nested":
+                return ('match ($.s) { t => [t, match (t) { _ => { print "in", t } }, t] }', "in %s\n" % st, [st, None, st], "ok")
+            if kind == "containers":
+                return ('match ($) { d => { print d.o, d.a, d.s, d.n } }', "%s %s %s %s\n" % (pa(o), pa(a), st, pa(num)), None, "ok")
+            if kind == "bare":
+                return ('match (1) { _ => { print\n print $ } }', "%s\n%s\n" % (pa(d), pa(d)), None, "ok")
+            if kind == "value-after":
+                return ('[match ($.n) { v => { print "n is", v } }, $.n, $.s]', "n is %s\n" % pa(num), [None, num, st], "ok")
+            if kind == "fails-after":
+                flt = rng.choice(["1 / 0", "7 % 0", "nofn(1)", "[1] < 2"])
+                return ('[match (1) { _ => { print "before", $.s } }, %s]' % flt, "before %s\n" % st, None, "runtime")
+            if kind == "fails-inside":
+                return ('match ($.a) { [x, y] => { print "w", x\n print "never", 1 / 0, y } }', "w %s\n" % pa(a[0]), None, "runtime")
+            if kind == "exits":
+                return ('match (1) { _ => { print "bye", $.n; exit } }', "bye %s\n" % pa(num), None, "exit")
+            raise ValueError(kind)
+
+        PRINTING = ["block", "block", "two-lines", "printf", "printf-nl", "mixed", "inside-array", "inside-array", "nested", "containers", "bare", "value-after"]
+        ENDING = ["fails-after", "fails-inside", "exits"]
+        PROGS = [
+            ('{ print "rule", $ }', False),
+            ('BEGIN { print "begin" }\nBEGINFILE { print "bf", $ }\n{ print "rule", $ }\nENDFILE { print "ef" }\nEND { print "end" }', True),
+            ('function say(v) { print "in say", v; return v }\n{ print "rule", say($) }', False),
+            ('true', False),
+        ]
+        self.cli = []
+        for k in range(n):
+            cid = "rs%d" % k
+            docs = [mkdoc() for _ in range(rng.choice([1, 1, 2, 3]))]
+            nsel = rng.choice([1, 1, 2, 2, 3, 4])
+            kinds = [rng.choice(PRINTING) if rng.random() < 0.7 else "quiet" for _ in range(nsel)]
+            if all(x == "quiet" for x in kinds):
+                kinds[rng.randrange(nsel)] = rng.choice(PRINTING)
+            ending = k % 4 == 3
+            if ending:
+                # with several selectors the failing / exiting one is NOT the first: the earlier selectors of that value have printed
+                kinds[rng.randrange(1, nsel) if nsel > 1 else 0] = rng.choice(ENDING)
+            pi = rng.randrange(len(PROGS))
+            prog, full = PROGS[pi]
+            if ending and full:
+                prog, full, pi = PROGS[0][0], False, 0      # what runs after an exit is C07's subject
+            # the selector texts are fixed per case (their literals must not depend on the document)
+            st = rng.getstate()
+            texts = None
+            want, outcome = ("begin\n" if full else ""), "ok"
+            stop = False
+            for d in docs:
+                rng.setstate(st)
+                got = [sel(kd, d) for kd in kinds]
+                texts = texts or [g[0] for g in got]
+                roots = []
+                for text, out, val, how in got:
+                    want += out
+                    if how != "ok":
+                        outcome, stop = ("runtime" if how == "runtime" else "ok"), True
+                        break
+                    roots.append(val)
+                if stop:
+                    break
+                for r in roots:
+                    if full:
+                        want += "bf %s\n" % pyref.pretty(r)
+                    for e in (r if isinstance(r, list) else [r]):
+                        if pi == 2:
+                            want += "in say %s\nrule %s\n" % (pyref.pretty(e), pyref.pretty(e))
+                        elif pi == 3:
+                            want += pyref.pretty(e) + "\n"
+                        else:
+                            want += "rule %s\n" % pyref.pretty(e)
+                    if full:
+                        want += "ef\n"
+            if full and not stop:
+                want += "end\n"
+            inputs = [" ".join(V.to_json(d) for d in docs)] if rng.random() < 0.6 else [V.to_json(d) for d in docs]
+            meta = {"fam": "effects", "prog": prog, "doc": "\n".join(inputs), "selectors": texts, "want": want, "want_outcome": outcome,
+                    "stdin": " ".join(V.to_json(d) for d in docs)}
+            c = Case(cid, simple_run(cid, prog, inputs, texts), meta, len(texts) >= 2, ["selector"])
+            cases.append(c)
+            if k % 5 == 0:
+                self.cli.append(c)
+            # the same selectors through the expression API, on the first document
+            if k % 2 == 0:
+                rng.setstate(st)
+                got = [sel(kd, docs[0]) for kd in kinds]
+                for j, (text, out, val, how) in enumerate(got):
+                    if kinds[j] == "quiet":
+                        continue
+                    eid = "rx%d_%d" % (k, j)
+                    oc = "runtime" if how == "runtime" else "ok"
+                    pretty = "~" if how == "runtime" else pyref.pretty(None if how == "exit" else val)
+                    cases.append(Case(eid, "EXPR %s %s %s" % (eid, hx(text), hx(V.to_json(docs[0]))),
+                                      {"fam": "expr", "src": text, "doc": V.to_json(docs[0]), "want": out, "want_outcome": oc, "want_value": pretty},
+                                      True, ["selector", "expr"]))
+
+    def project(self, r):
+        if len(r.raw) == 6:
+            # an EXPR result: outcome, position, stdout, rendering of the value
+            return (r.raw[0], r.raw[4], r.raw[5])
+        return Check.project(self, r)
+
+    def extra(self, ctx):
+        """the selector cases again on the real binary: -r per selector, the documents on standard input"""
+        viol, stats = [], {"binary_runs": 0}
+        for c in getattr(self, "cli", []):
+            m = c.meta
+            args = [JQAWK]
+            for t in m["selectors"]:
+                args += ["-r", t]
+            args.append(m["prog"])
+            try:
+                p = subprocess.run(args, input=m["stdin"].encode(), stdout=subprocess.PIPE, stderr=subprocess.PIPE, timeout=10)
+            except subprocess.TimeoutExpired:
+                continue
+            stats["binary_runs"] += 1
+            out = p.stdout.decode("utf-8", "replace")
+            err = p.stderr.decode("utf-8", "replace")
+            if "goroutine " in err or "panic:" in err:
+                viol.append((Case(c.id + "b", None, dict(m, argv=args[1:]), True, c.tags), "jqawk binary crashed: %r" % err[:200]))
+            elif out != m["want"] or (p.returncode == 0) != (m["want_outcome"] == "ok"):
+                viol.append((Case(c.id + "b", None, dict(m, argv=args[1:]), True, c.tags),
+                             "jqawk binary with -r selectors that print: documented output %r (%s), binary wrote %r (exit status %d)"
+                             % (m["want"], m["want_outcome"], out, p.returncode)))
+        return viol[:5], stats
+
     def generate(self, rng, tier):
         q = tier == "quick"
         cases = []
@@ -474,6 +634,7 @@ class C17(Check):
         self.gen_shared(rng, 150 if q else 4000, cases)
         self.gen_cycle(rng, 250 if q else 8000, cases)
         self.gen_effects(rng, 240 if q else 4000, cases)
+        self.gen_selectors(rng, 160 if q else 3000, cases)
         return cases
 
     # ------------------------------------------------------------ oracle
@@ -484,10 +645,25 @@ class C17(Check):
             return None
         if impl.outcome == "timeout":
             return "print did not terminate within the harness time limit"
+        if fam == "expr":
+            raw = impl.raw
+            if len(raw) != 6:
+                return None
+            out = unhx(raw[4]).decode("utf-8", "replace")
+            val = unhx(raw[5]).decode("utf-8", "replace") if raw[5] not in ("~", "nil") else raw[5]
+            if raw[0] != m["want_outcome"]:
+                return "EvalExpression(%r) ended in %r, documented %r" % (m["src"], raw[0], m["want_outcome"])
+            if out != m["want"]:
+                return "print inside an expression evaluated through EvalExpression(%r): documented output %r, implementation %r" % (m["src"], m["want"], out)
+            if val != m["want_value"]:
+                return "EvalExpression(%r): documented value %r, implementation %r" % (m["src"], m["want_value"], val)
+            return None
         if fam == "effects":
             out = impl.stdout.decode("utf-8", "replace")
             if impl.outcome != m["want_outcome"]:
                 return "run ended in %r, documented %r" % (impl.outcome, m["want_outcome"])
+            if out != m["want"] and "selectors" in m:
+                return "print / printf inside the root selectors %r: documented output %r, implementation %r" % (m["selectors"], m["want"], out)
             if out != m["want"]:
                 return "a print statement is one line written after all its arguments are evaluated: documented output %r, implementation %r" % (m["want"], out)
             return None
